@@ -356,7 +356,12 @@ func (t *StreamUnderlay) onOpenSessionResponse(seg *segment) error {
 	sessionID := seg.metadata.(*sessionStruct).sessionID
 	session, found := t.sessionMap.Load(sessionID)
 	if !found {
-		return fmt.Errorf("session ID %d is not found", sessionID)
+		// The session was closed and removed before the response arrived.
+		// Other sessions may still use this underlay, so this is not an error.
+		if log.IsLevelEnabled(log.TraceLevel) {
+			log.Tracef("%v received openSessionResponse, but session ID %d is not found", t, sessionID)
+		}
+		return nil
 	}
 	if !t.deliverSegmentToSession(session.(*Session), seg) && log.IsLevelEnabled(log.TraceLevel) {
 		log.Tracef("%v ignored openSessionResponse segment for closed session %d", t, sessionID)
